@@ -22,7 +22,7 @@ RULE = ('typed random evaluable DAGs (G-ev: ~45 operator kinds incl. loops, scat
         'shared subterms, 1-3 outputs) plus systematic operator pairs/triples Outer(Middle(Inner(leaf))) and Op(balanced sum of arrays scattered by shared index maps), also under a loop sum; k in-domain argument '
         'assignments each; non-trivial = >=3 inner nodes and the simplifier changed the expression; distinct = operator skeleton')
 ASSUMPTIONS = ['shadow numpy interpreter (vlib/evgen.py) is the reference; it is self-tested against plain numpy and cross-checked by the un-simplified evaluation on every case',
-               'termination is a bounded-progress claim: <= 5e4 rewrite steps / 5e7 executed lines on generator-sized DAGs',
+               'termination is a bounded-progress claim: <= 1e6 rewrite steps on generator-sized DAGs (5e4 nominates, a second run with 1e6 convicts); a line-budget overrun without cycle evidence is an unresolved suspect',
                'float comparison bands 1e-9 (pass) / 1e-5 (violation) relative to the largest intermediate magnitude']
 BUDGET_S = {'quick': 110, 'thorough': 1500}
 NCASES = {'quick': 3800, 'thorough': 160000}
@@ -61,6 +61,32 @@ def setup():
     warnings.simplefilter('ignore')
 
 
+CONFIRM_STEPS = 10**6
+
+
+def confirm_budget(case):
+    """the 5e4-step budget was exceeded: run again with 1e6 steps (wall-capped) before convicting; a large but terminating
+    simplification (e.g. 50 835 steps for a 3x3x9 block structure of concatenations) is not a termination failure"""
+    old = evmon.BUDGET['steps']
+    evmon.BUDGET['steps'] = CONFIRM_STEPS
+    evmon.reset_steps()
+    try:
+        with evmon.wall(150):
+            built, outs = evgen.build(case)
+            simp = tuple(o.simplified for o in outs)
+        return 'terminates', (outs, simp), evmon.STEPS['simplified']
+    except evmon.StepBudget as e:
+        return 'budget', str(e), evmon.STEPS['simplified']
+    except evmon.WallNominate:
+        return 'wall', None, evmon.STEPS['simplified']
+    except RecursionError:
+        return 'raised', 'RecursionError', evmon.STEPS['simplified']
+    except Exception as e:
+        return 'raised', f'{type(e).__name__}: {str(e)[:300]}', evmon.STEPS['simplified']
+    finally:
+        evmon.BUDGET['steps'] = old
+
+
 def check_case(case, seed_key, res, tier, nassign=None, stepmon=False):
     """Run all C01 monitors on one case.  Violations are recorded in res."""
     from nutils import evaluable as ev
@@ -85,6 +111,17 @@ def check_case(case, seed_key, res, tier, nassign=None, stepmon=False):
             res.count('rejected_constructions')
             res.add('rejected_kinds', f'{type(e).__name__}')
             return
+        if mode == 'step-budget' and not evfind.classify_c01(case, mode, detail):
+            status, r, steps = confirm_budget(case)
+            res.maximum('max_rewrite_steps', steps)
+            if status == 'terminates':
+                res.count('slow_but_terminating')
+                return     # (construction consulted .simplified: value checks of such cases are left to the smaller ones)
+            if status == 'wall':
+                res.count('slow_suspect_unresolved')
+                res.note('unresolved slow suspect (step budget exceeded, confirmation run hit the wall): ' + evgen.skeleton(case)[:300])
+                return
+            detail = f'{r} (confirmation run) | ' + detail
         res.violation('simplification does not terminate normally: ' + mode, dict(case=case, desc=evgen.describe(case)), detail, mechanism=evfind.classify_c01(case, mode, detail))
         return
     rng = rng_for(*seed_key, 'args')
@@ -140,6 +177,20 @@ def check_case(case, seed_key, res, tier, nassign=None, stepmon=False):
     if fail:
         fail = (fail[0], fail[1] + ' | hot rules: ' + ','.join(evmon.hot_rules()))
         mech = evfind.classify_c01(case, fail[0], fail[1])
+        if fail[0] == 'step-budget' and not mech:
+            status, r, steps = confirm_budget(case)
+            res.maximum('max_rewrite_steps', steps)
+            if status == 'terminates':
+                res.count('slow_but_terminating')
+                outs, simp = r
+                fail = None
+            elif status == 'wall':
+                res.count('slow_suspect_unresolved')
+                res.note('unresolved slow suspect (step budget exceeded, confirmation run hit the wall): ' + evgen.skeleton(case)[:300])
+                return
+            else:
+                fail = ('step-budget' if status == 'budget' else 'exception', f'{r} (confirmation run with {CONFIRM_STEPS} steps) | ' + fail[1])
+    if fail:
         res.violation('simplification does not terminate normally: ' + fail[0], dict(case=case, desc=evgen.describe(case)), fail[1], mechanism=mech)
         return
     changed = any(s is not o for s, o in zip(simp, outs))
